@@ -13,7 +13,9 @@
 import BVM.Proofs.Saved
 import BVM.Proofs.RtSimp
 import BVM.Proofs.RtCount
+import BVM.Proofs.StoresIn
 namespace BVM
+
 
 /-- the end of packet header + packet context written from bit 0 (unbounded arithmetic) -/
 def hdrEndN (cfg : Cfg) (d : DST) (args : Args) : Nat :=
@@ -52,6 +54,14 @@ def ChainOK (M : Nat) : List Ev → Prop
   | .recDone _ s e :: l => hw l ≤ s ∧ s ≤ e ∧ e ≤ M ∧ ChainOK M l
   | .opened oc :: l => oc ≤ M ∧ ChainOK M l
   | _ :: l => ChainOK M l
+
+/-- a logged store lies inside a buffer of `L` bytes (any other event: no condition) -/
+def StoreIn (L : Nat) : Ev → Prop
+  | .store o n _ _ => o + n ≤ L
+  | _ => True
+
+theorem Ext.storesIn {L : Nat} {s s' : St} (h : Ext (StoreIn L) s s') (h0 : ∀ e ∈ s.log, StoreIn L e) :
+    ∀ e ∈ s'.log, StoreIn L e := h.all h0
 
 /-- an event that is neither an opening nor a record -/
 def Neutral (e : Ev) : Prop := (∀ l, hw (e :: l) = hw l) ∧ (∀ M l, ChainOK M (e :: l) = ChainOK M l)
@@ -99,6 +109,7 @@ structure PInv (d : DST) (L : Nat) (oa : List Args) (s : St) : Prop where
   cz : s.c.contentSize ≤ 8 * L
   hwle : hw s.log ≤ s.c.at_
   chain : ChainOK (8 * L) s.log
+  stin : ∀ e ∈ s.log, StoreIn L e
 
 /-- what the invariant looks at is unchanged -/
 structure PSame (s s' : St) : Prop where
@@ -113,60 +124,65 @@ structure PSame (s s' : St) : Prop where
   offc : s'.c.offContent = s.c.offContent
   csz : s'.c.contentSize = s.c.contentSize
   ext : Ext Neutral s s'
+  sin : ∀ L, Ext (StoreIn L) s s'
 
-theorem PSame.refl (s : St) : PSame s s := ⟨rfl, rfl, rfl, rfl, rfl, rfl, rfl, rfl, rfl, rfl, Ext.refl _ _⟩
+theorem PSame.refl (s : St) : PSame s s := ⟨rfl, rfl, rfl, rfl, rfl, rfl, rfl, rfl, rfl, rfl, Ext.refl _ _, fun _ => Ext.refl _ _⟩
 theorem PSame.trans {a b c : St} (h₁ : PSame a b) (h₂ : PSame b c) : PSame a c :=
   ⟨h₂.nh.trans h₁.nh, h₂.len.trans h₁.len, h₂.pkt.trans h₁.pkt, h₂.at_.trans h₁.at_, h₂.saved.trans h₁.saved,
    h₂.isOpen.trans h₁.isOpen, h₂.oa.trans h₁.oa, h₂.sb.trans h₁.sb, h₂.offc.trans h₁.offc, h₂.csz.trans h₁.csz,
-   h₁.ext.trans h₂.ext⟩
+   h₁.ext.trans h₂.ext, fun L => (h₁.sin L).trans (h₂.sin L)⟩
 
 theorem PSame.inv {d : DST} {L : Nat} {oa : List Args} {s s' : St} (h : PSame s s') (hi : PInv d L oa s) :
     PInv d L oa s' :=
   ⟨h.nh.trans hi.nh, h.len.trans hi.len, h.pkt.trans hi.pkt, by rw [h.at_]; exact hi.at_,
    by rw [h.isOpen, h.saved]; exact hi.sv, h.oa.trans hi.oa, by rw [h.sb]; exact hi.sb,
    by rw [h.isOpen, h.offc, h.at_]; exact hi.oc, by rw [h.csz]; exact hi.cz,
-   by rw [h.ext.hw, h.at_]; exact hi.hwle, by rw [h.ext.chain]; exact hi.chain⟩
+   by rw [h.ext.hw, h.at_]; exact hi.hwle, by rw [h.ext.chain]; exact hi.chain, (h.sin L).storesIn hi.stin⟩
 
-theorem PSame.ev (s : St) (e : Ev) (h : Neutral e := by exact ⟨fun _ => rfl, fun _ _ => rfl⟩) : PSame s (s.ev e) :=
-  ⟨rfl, rfl, rfl, rfl, rfl, rfl, rfl, rfl, rfl, rfl, Ext.ev s e h⟩
+theorem PSame.ev (s : St) (e : Ev) (h : Neutral e := by exact ⟨fun _ => rfl, fun _ _ => rfl⟩)
+    (h2 : ∀ L, StoreIn L e := by intro _; trivial) : PSame s (s.ev e) :=
+  ⟨rfl, rfl, rfl, rfl, rfl, rfl, rfl, rfl, rfl, rfl, Ext.ev s e h, fun L => Ext.ev s e (h2 L)⟩
 theorem PSame.setFlag (s : St) (b : Bool) : PSame s (s.setFlag b) :=
-  ⟨rfl, rfl, rfl, rfl, rfl, rfl, rfl, rfl, rfl, rfl, Ext.of_log_eq rfl⟩
+  ⟨rfl, rfl, rfl, rfl, rfl, rfl, rfl, rfl, rfl, rfl, Ext.of_log_eq rfl, fun _ => Ext.of_log_eq rfl⟩
 theorem PSame.setEnabled (s : St) (b : Bool) : PSame s (s.setEnabled b) :=
-  ⟨rfl, rfl, rfl, rfl, rfl, rfl, rfl, rfl, rfl, rfl, Ext.of_log_eq rfl⟩
+  ⟨rfl, rfl, rfl, rfl, rfl, rfl, rfl, rfl, rfl, rfl, Ext.of_log_eq rfl, fun _ => Ext.of_log_eq rfl⟩
 theorem PSame.setUseCur (s : St) (b : Bool) : PSame s (s.setUseCur b) :=
-  ⟨rfl, rfl, rfl, rfl, rfl, rfl, rfl, rfl, rfl, rfl, Ext.of_log_eq rfl⟩
+  ⟨rfl, rfl, rfl, rfl, rfl, rfl, rfl, rfl, rfl, rfl, Ext.of_log_eq rfl, fun _ => Ext.of_log_eq rfl⟩
 theorem PSame.setCurTs (s : St) (v : Nat) : PSame s (s.setCurTs v) :=
-  ⟨rfl, rfl, rfl, rfl, rfl, rfl, rfl, rfl, rfl, rfl, Ext.of_log_eq rfl⟩
+  ⟨rfl, rfl, rfl, rfl, rfl, rfl, rfl, rfl, rfl, rfl, Ext.of_log_eq rfl, fun _ => Ext.of_log_eq rfl⟩
 theorem PSame.setDiscarded (s : St) (v : Nat) : PSame s (s.setDiscarded v) :=
-  ⟨rfl, rfl, rfl, rfl, rfl, rfl, rfl, rfl, rfl, rfl, Ext.of_log_eq rfl⟩
+  ⟨rfl, rfl, rfl, rfl, rfl, rfl, rfl, rfl, rfl, rfl, Ext.of_log_eq rfl, fun _ => Ext.of_log_eq rfl⟩
 theorem PSame.setSeqNum (s : St) (v : Nat) : PSame s (s.setSeqNum v) :=
-  ⟨rfl, rfl, rfl, rfl, rfl, rfl, rfl, rfl, rfl, rfl, Ext.of_log_eq rfl⟩
+  ⟨rfl, rfl, rfl, rfl, rfl, rfl, rfl, rfl, rfl, rfl, Ext.of_log_eq rfl, fun _ => Ext.of_log_eq rfl⟩
 theorem PSame.bumpOpen (s : St) : PSame s s.bumpOpen :=
-  ⟨rfl, rfl, rfl, rfl, rfl, rfl, rfl, rfl, rfl, rfl, Ext.of_log_eq rfl⟩
+  ⟨rfl, rfl, rfl, rfl, rfl, rfl, rfl, rfl, rfl, rfl, Ext.of_log_eq rfl, fun _ => Ext.of_log_eq rfl⟩
 theorem PSame.bumpClose (s : St) : PSame s s.bumpClose :=
-  ⟨rfl, rfl, rfl, rfl, rfl, rfl, rfl, rfl, rfl, rfl, Ext.of_log_eq rfl⟩
+  ⟨rfl, rfl, rfl, rfl, rfl, rfl, rfl, rfl, rfl, rfl, Ext.of_log_eq rfl, fun _ => Ext.of_log_eq rfl⟩
 
 theorem cbEnter_psame (k : CbKind) (s : St) : PSame s (cbEnter k s) := by
-  have hx := (cbEnter_same k s).ext.mono PQuiet.neutral
-  unfold cbEnter at hx ⊢
-  simp only at hx ⊢
-  split at hx <;> exact ⟨rfl, rfl, rfl, rfl, rfl, rfl, rfl, rfl, rfl, rfl, hx⟩
+  unfold cbEnter
+  simp only
+  split <;> exact ⟨rfl, rfl, rfl, rfl, rfl, rfl, rfl, rfl, rfl, rfl,
+    ⟨[_], rfl, by intro e he; simp at he; subst he; exact ⟨fun _ => rfl, fun _ _ => rfl⟩⟩,
+    fun _ => ⟨[_], rfl, by intro e he; simp at he; subst he; trivial⟩⟩
 
 theorem cbClock_psame (clk : Clock) (s : St) : PSame s (cbClock clk s).2 := by
   have h1 := cbEnter_psame .clock s
   unfold cbClock
   simp only
   generalize cbEnter .clock s = s1 at h1
-  refine h1.trans ⟨rfl, rfl, rfl, rfl, rfl, rfl, rfl, rfl, rfl, rfl, ⟨[_, _], rfl, ?_⟩⟩
-  intro e he; simp at he; rcases he with he | he <;> subst he <;> exact ⟨fun _ => rfl, fun _ _ => rfl⟩
+  refine h1.trans ⟨rfl, rfl, rfl, rfl, rfl, rfl, rfl, rfl, rfl, rfl, ⟨[_, _], rfl, ?_⟩, fun _ => ⟨[_, _], rfl, ?_⟩⟩
+  · intro e he; simp at he; rcases he with he | he <;> subst he <;> exact ⟨fun _ => rfl, fun _ _ => rfl⟩
+  · intro e he; simp at he; rcases he with he | he <;> subst he <;> trivial
 
 theorem cbFull_psame (s : St) : PSame s (cbFull s).2 := by
   have h1 := cbEnter_psame .full s
   unfold cbFull
   simp only
   generalize cbEnter .full s = s1 at h1
-  refine h1.trans ⟨rfl, rfl, rfl, rfl, rfl, rfl, rfl, rfl, rfl, rfl, ⟨[_, _], rfl, ?_⟩⟩
-  intro e he; simp at he; rcases he with he | he <;> subst he <;> exact ⟨fun _ => rfl, fun _ _ => rfl⟩
+  refine h1.trans ⟨rfl, rfl, rfl, rfl, rfl, rfl, rfl, rfl, rfl, rfl, ⟨[_, _], rfl, ?_⟩, fun _ => ⟨[_, _], rfl, ?_⟩⟩
+  · intro e he; simp at he; rcases he with he | he <;> subst he <;> exact ⟨fun _ => rfl, fun _ _ => rfl⟩
+  · intro e he; simp at he; rcases he with he | he <;> subst he <;> trivial
 
 theorem preambleTs_psame (d : DST) (ft : Option Scalar) (s : St) : PSame s (preambleTs d ft s).2 := by
   unfold preambleTs
@@ -183,7 +199,8 @@ theorem traceClock_psame (d : DST) (s : St) : PSame s (traceClock d s) := by
   · exact PSame.refl s
 
 theorem noSpace_psame (cf : Bool) (s : St) : PSame s (noSpace cf s).2 :=
-  ⟨rfl, rfl, rfl, rfl, rfl, rfl, rfl, rfl, rfl, rfl, ⟨[_], rfl, by intro e he; simp at he; subst he; exact ⟨fun _ => rfl, fun _ _ => rfl⟩⟩⟩
+  ⟨rfl, rfl, rfl, rfl, rfl, rfl, rfl, rfl, rfl, rfl, ⟨[_], rfl, by intro e he; simp at he; subst he; exact ⟨fun _ => rfl, fun _ _ => rfl⟩⟩,
+    fun _ => ⟨[_], rfl, by intro e he; simp at he; subst he; trivial⟩⟩
 
 /-! ### a serialisation pass that stays inside the buffer -/
 
@@ -198,6 +215,18 @@ theorem runSer_fields (f : SerSt → SerSt) (s : St) (hh : s.halted = false)
   unfold runSer installSer
   simp only [h, Bool.false_eq_true, if_false]
   exact ⟨hh, rfl, rfl, rfl, rfl, rfl, rfl, rfl, rfl, rfl⟩
+
+/-- the stores a pass logs without raising `oob` are inside the buffer -/
+theorem runSer_sin (L : Nat) (f : SerSt → SerSt) (hf : ∀ st, StoresGood L st → StoresGood L (f st)) (s : St) (hlen : s.buf.length = L)
+    (h : (f { buf := s.buf, at_ := s.c.at_, saved := s.c.saved, stores := [], oob := false, leaves := [] }).oob = false) :
+    Ext (StoreIn L) s (runSer f s) := by
+  have hst := pass_stores_in L f hf s.buf s.c.at_ s.c.saved hlen h
+  unfold runSer installSer
+  simp only [h, Bool.false_eq_true, if_false]
+  refine ⟨_, rfl, ?_⟩
+  intro e he
+  obtain ⟨x, hx, rfl⟩ := List.mem_map.mp he
+  exact hst x hx
 
 section
 variable (cfg : Cfg) (d : DST) (L A : Nat) (oa : List Args)
@@ -246,7 +275,12 @@ theorem openWrite_pinv (args : Args) (hargs : args ∈ openArgsOf oa) (ts : Nat)
     exact hle
   have hsv2 : SavedOK d.pcOp.members (runSer (fun st => serRoot env "pc" d.pcOp args
       (serRoot env "ph" (DST.phOp cfg) [] st)) (s.setAt 0)).c.saved (8 * L) := by rw [r5]; exact hsv
-  generalize runSer _ (s.setAt 0) = s2 at r1 r4 r7 r9 hx hlen2 hat2 hsv2
+  have hsin : Ext (StoreIn L) s (runSer (fun st => serRoot env "pc" d.pcOp args (serRoot env "ph" (DST.phOp cfg) [] st))
+      (s.setAt 0)) :=
+    (Ext.of_log_eq rfl : Ext (StoreIn L) s (s.setAt 0)).trans
+      (runSer_sin L _ (fun st h => serRoot_good L env "pc" _ args _ (serRoot_good L env "ph" _ [] st h)) (s.setAt 0)
+        hi.len hpc.1)
+  generalize runSer _ (s.setAt 0) = s2 at r1 r4 r7 r9 hx hlen2 hat2 hsv2 hsin
   rw [if_neg (by rw [r1]; simp)]
   have h4 : PSame s2 (if d.feat.tsBegin.isSome = true then s2.ev (.tsWrite "begin" ts) else s2) := by
     split
@@ -254,7 +288,7 @@ theorem openWrite_pinv (args : Args) (hargs : args ∈ openArgsOf oa) (ts : Nat)
     · exact PSame.refl _
   generalize (if d.feat.tsBegin.isSome = true then s2.ev (.tsWrite "begin" ts) else s2) = s3 at h4
   have hx3 : Ext Neutral s s3 := hx.trans h4.ext
-  refine ⟨h4.nh.trans r1, h4.len.trans hlen2, ?_, ?_, ?_, ?_, ?_, fun _ => Nat.le_refl _, ?_, ?_, ?_⟩
+  refine ⟨h4.nh.trans r1, h4.len.trans hlen2, ?_, ?_, ?_, ?_, ?_, fun _ => Nat.le_refl _, ?_, ?_, ?_, ?_⟩
   · show s3.c.packetSize = 8 * L; rw [h4.pkt, r4]; exact hi.pkt
   · show s3.c.at_ ≤ 8 * L; rw [h4.at_]; exact hat2
   · intro _; show SavedOK _ s3.c.saved _; rw [h4.saved]; exact hsv2
@@ -264,6 +298,11 @@ theorem openWrite_pinv (args : Args) (hargs : args ∈ openArgsOf oa) (ts : Nat)
   · show hw (Ev.opened s3.c.at_ :: s3.log) ≤ s3.c.at_; exact Nat.le_refl _
   · show ChainOK (8 * L) (Ev.opened s3.c.at_ :: s3.log)
     exact ⟨by rw [h4.at_]; exact hat2, by rw [hx3.chain]; exact hi.chain⟩
+  · intro e he
+    have he' : e ∈ Ev.opened s3.c.at_ :: s3.log := he
+    rcases List.mem_cons.mp he' with rfl | h
+    · trivial
+    · exact (hsin.trans (h4.sin L)).storesIn hi.stin e h
 
 include hcfg hsmall hhdr in
 theorem openGuarded_pinv (args : Args) (hargs : args ∈ openArgsOf oa) (ts : Nat) (s : St) (hi : PInv d L oa s) :
@@ -341,7 +380,8 @@ theorem findWrite_src (spec : String → Option WSrc) (n : String) (w : Write) :
 
 /-- what the write-backs of the closing function keep: the packet is open, the saved offsets are inside the buffer;
     `P` is any property of the platform state and `E` the value of `is_tracing_enabled` (neither is touched) -/
-structure PInvO (d : DST) (L : Nat) (P : Plat → Prop) (E : Bool) (s : St) : Prop where
+structure PInvO (d : DST) (L : Nat) (P : Plat → Prop) (E : Bool) (s0 s : St) : Prop where
+  sin : Ext (StoreIn L) s0 s
   nh : s.halted = false
   len : s.buf.length = L
   pkt : s.c.packetSize = 8 * L
@@ -353,7 +393,8 @@ structure PInvO (d : DST) (L : Nat) (P : Plat → Prop) (E : Bool) (s : St) : Pr
   en : s.c.isTracingEnabled = E
 
 /-- what the closing function leaves behind -/
-structure PClosed (L : Nat) (P : Plat → Prop) (E : Bool) (s : St) : Prop where
+structure PClosed (L : Nat) (P : Plat → Prop) (E : Bool) (s0 s : St) : Prop where
+  sin : Ext (StoreIn L) s0 s
   nh : s.halted = false
   len : s.buf.length = L
   pkt : s.c.packetSize = 8 * L
@@ -366,7 +407,7 @@ structure PClosed (L : Nat) (P : Plat → Prop) (E : Bool) (s : St) : Prop where
 include hcfg hsmall in
 theorem writeBack_pinv (P : Plat → Prop) (E : Bool) (env : SerEnv) (name : String)
     (hskip : ((specPC name).getD .arg).isSkip = true) (v : Int)
-    (s : St) (hi : PInvO d L P E s) : PInvO d L P E (writeBack env d name v s) := by
+    (s0 s : St) (hi : PInvO d L P E s0 s) : PInvO d L P E s0 (writeBack env d name v s) := by
   unfold writeBack
   split
   · exact hi
@@ -391,7 +432,9 @@ theorem writeBack_pinv (P : Plat → Prop) (E : Bool) (env : SerEnv) (name : Str
       have hr := runSer_fields (fun st => writeBits env w.sc w.oib v st) (s.setAt off) hi.nh hin.1
       simp only at hr
       obtain ⟨r1, r2, r3, r4, r5, r6, r7, r8, r9, r10⟩ := hr
-      refine ⟨r1, ?_, ?_, ?_, ?_, ?_, ?_, ?_, ?_⟩
+      refine ⟨?_, r1, ?_, ?_, ?_, ?_, ?_, ?_, ?_, ?_⟩
+      · exact (hi.sin.trans (Ext.of_log_eq rfl : Ext (StoreIn L) s (s.setAt off))).trans
+          (runSer_sin L _ (fun st h => writeBits_good L env w.sc w.oib v st h) (s.setAt off) hi.len hin.1)
       · rw [r3]; exact hin.2.2.2.trans hi.len
       · rw [r4]; exact hi.pkt
       · rw [r2]
@@ -409,25 +452,25 @@ theorem writeBack_pinv (P : Plat → Prop) (E : Bool) (env : SerEnv) (name : Str
       · rw [r10]; exact hi.en
 
 include hcfg hsmall in
-theorem closeBacks_pinv (P : Plat → Prop) (E : Bool) (ts : Nat) (s : St) (hi : PInvO d L P E s) :
-    PInvO d L P E (closeBacks cfg d ts s) := by
+theorem closeBacks_pinv (P : Plat → Prop) (E : Bool) (ts : Nat) (s0 s : St) (hi : PInvO d L P E s0 s) :
+    PInvO d L P E s0 (closeBacks cfg d ts s) := by
   unfold closeBacks
   simp only
   generalize serEnvOf cfg d 0 ts s.c = env
-  have h1 : PInvO d L P E (if d.feat.tsEnd.isSome = true then writeBack env d "timestamp_end" ts s else s) := by
+  have h1 : PInvO d L P E s0 (if d.feat.tsEnd.isSome = true then writeBack env d "timestamp_end" ts s else s) := by
     split
-    · exact writeBack_pinv cfg d L A hcfg hsmall P E env "timestamp_end" rfl _ s hi
+    · exact writeBack_pinv cfg d L A hcfg hsmall P E env "timestamp_end" rfl _ s0 s hi
     · exact hi
   generalize (if d.feat.tsEnd.isSome = true then writeBack env d "timestamp_end" ts s else s) = s1 at h1
-  have h2 : PInvO d L P E (writeBack env d "content_size" s1.c.contentSize s1) :=
-    writeBack_pinv cfg d L A hcfg hsmall P E env "content_size" rfl _ s1 h1
+  have h2 : PInvO d L P E s0 (writeBack env d "content_size" s1.c.contentSize s1) :=
+    writeBack_pinv cfg d L A hcfg hsmall P E env "content_size" rfl _ s0 s1 h1
   generalize writeBack env d "content_size" s1.c.contentSize s1 = s2 at h2
   split
-  · exact writeBack_pinv cfg d L A hcfg hsmall P E env "events_discarded" rfl _ s2 h2
+  · exact writeBack_pinv cfg d L A hcfg hsmall P E env "events_discarded" rfl _ s0 s2 h2
   · exact h2
 
-theorem closeFinish_closed (P : Plat → Prop) (E : Bool) (ts : Nat) (saved : Bool) (s : St) (hi : PInvO d L P E s) :
-    PClosed L P E (closeFinish d ts saved s) := by
+theorem closeFinish_closed (P : Plat → Prop) (E : Bool) (ts : Nat) (saved : Bool) (s0 s : St) (hi : PInvO d L P E s0 s) :
+    PClosed L P E s0 (closeFinish d ts saved s) := by
   unfold closeFinish
   split
   · rename_i hh; rw [hi.nh] at hh; exact absurd hh (by simp)
@@ -442,9 +485,11 @@ theorem closeFinish_closed (P : Plat → Prop) (E : Bool) (ts : Nat) (saved : Bo
     obtain ⟨h4, h4p, h4e⟩ := h4
     have hpk : s3.c.packetSize = 8 * L := h4.pkt.trans hi.pkt
     split
-    · exact ⟨h4.nh.trans hi.nh, h4.len.trans hi.len, hpk, hpk, by show s3.c.contentSize ≤ _; rw [h4.csz]; exact hi.cz,
+    · exact ⟨(hi.sin.trans (h4.sin L)).trans ⟨[_], rfl, by intro e he; simp at he; subst he; trivial⟩,
+        h4.nh.trans hi.nh, h4.len.trans hi.len, hpk, hpk, by show s3.c.contentSize ≤ _; rw [h4.csz]; exact hi.cz,
         rfl, by show P s3.p; rw [h4p]; exact hi.pp, h4e.trans hi.en⟩
-    · exact ⟨h4.nh.trans hi.nh, h4.len.trans hi.len, hpk, hpk, by show s3.c.contentSize ≤ _; rw [h4.csz]; exact hi.cz,
+    · exact ⟨(hi.sin.trans (h4.sin L)).trans ⟨[_], rfl, by intro e he; simp at he; subst he; trivial⟩,
+        h4.nh.trans hi.nh, h4.len.trans hi.len, hpk, hpk, by show s3.c.contentSize ≤ _; rw [h4.csz]; exact hi.cz,
         rfl, by show P s3.p; rw [h4p]; exact hi.pp, h4e.trans hi.en⟩
 
 include hcfg hsmall in
@@ -453,11 +498,11 @@ theorem closeWrite_closed (P : Plat → Prop) (E : Bool) (ts : Nat) (saved : Boo
     (hnh : s.halted = false) (hlen : s.buf.length = L) (hpkt : s.c.packetSize = 8 * L) (hat : s.c.at_ ≤ 8 * L)
     (hsv : SavedOK d.pcOp.members s.c.saved (8 * L)) (ho : s.c.packetIsOpen = true) (hp : P s.p)
     (hen : s.c.isTracingEnabled = E) :
-    PClosed L P E (closeWrite cfg d ts saved s) := by
+    PClosed L P E s (closeWrite cfg d ts saved s) := by
   unfold closeWrite
-  exact closeFinish_closed d L P E ts saved _
-    (closeBacks_pinv cfg d L A hcfg hsmall P E ts (s.setContentSize s.c.at_)
-      ⟨hnh, hlen, hpkt, hat, hsv, hat, ho, hp, hen⟩)
+  exact closeFinish_closed d L P E ts saved s _
+    (closeBacks_pinv cfg d L A hcfg hsmall P E ts s (s.setContentSize s.c.at_)
+      ⟨Ext.of_log_eq rfl, hnh, hlen, hpkt, hat, hsv, hat, ho, hp, hen⟩)
 
 theorem closeFinish_neutral (d : DST) (ts : Nat) (saved : Bool) (s : St) : Ext Neutral s (closeFinish d ts saved s) := by
   unfold closeFinish
@@ -487,7 +532,7 @@ theorem closeWrite_pinv (ts : Nat) (saved : Bool) (s : St) (hi : PInv d L oa s) 
   have hx := closeWrite_neutral cfg d ts saved s
   exact ⟨h.nh, h.len, h.pkt, by rw [h.at_]; exact Nat.le_refl _, fun x => by rw [h.isOpen] at x; simp at x, h.pp.1,
     h.pp.2, fun x => by rw [h.isOpen] at x; simp at x, h.cz,
-    by rw [hx.hw, h.at_]; exact Nat.le_trans hi.hwle hi.at_, by rw [hx.chain]; exact hi.chain⟩
+    by rw [hx.hw, h.at_]; exact Nat.le_trans hi.hwle hi.at_, by rw [hx.chain]; exact hi.chain, h.sin.storesIn hi.stin⟩
 
 include hcfg hsmall in
 theorem closeGuarded_pinv (ts : Nat) (s : St) (hi : PInv d L oa s) : PInv d L oa (closeGuarded cfg d ts s) := by
@@ -514,8 +559,8 @@ theorem setBuf_pinv (hA : 0 < A) (s : St) (hi : PInv d L oa s) : PInv d L oa (se
   simp only [hu]
   split
   · exact ⟨hi.nh, by simp, rfl, Nat.le_refl _, hi.sv, hi.oa, hi.sb,
-      fun h => Nat.le_trans (hi.oc h) hi.at_, hi.cz, Nat.le_trans hi.hwle hi.at_, hi.chain⟩
-  · exact ⟨hi.nh, by simp, rfl, hi.at_, hi.sv, hi.oa, hi.sb, hi.oc, hi.cz, hi.hwle, hi.chain⟩
+      fun h => Nat.le_trans (hi.oc h) hi.at_, hi.cz, Nat.le_trans hi.hwle hi.at_, hi.chain, hi.stin⟩
+  · exact ⟨hi.nh, by simp, rfl, hi.at_, hi.sv, hi.oa, hi.sb, hi.oc, hi.cz, hi.hwle, hi.chain, hi.stin⟩
 
 include hsmall in
 theorem deliverAndSwap_pinv (hA : 0 < A) (wasOpen : Bool) (n : Nat) (s : St) (hi : PInv d L oa s) :
@@ -641,7 +686,7 @@ theorem traceWrite_pinv (e : ERT) (he : e ∈ d.erts) (args : Args) (hargs : Arg
   have hge1 : s.c.at_ ≤ (runSer (serRecord (serEnvOf cfg d e.id s.c.curLastEventTs s.c) d e args) s).c.at_ := by
     rw [r2]; exact hge
   have h1 : PInv d L oa (runSer (serRecord (serEnvOf cfg d e.id s.c.curLastEventTs s.c) d e args) s) := by
-    refine ⟨r1, ?_, ?_, ?_, ?_, ?_, ?_, ?_, ?_, ?_, ?_⟩
+    refine ⟨r1, ?_, ?_, ?_, ?_, ?_, ?_, ?_, ?_, ?_, ?_, ?_⟩
     rotate_left 6
     · intro ho
       rw [r8, r2]
@@ -649,6 +694,7 @@ theorem traceWrite_pinv (e : ERT) (he : e ∈ d.erts) (args : Args) (hargs : Arg
     · rw [r9]; exact hi.cz
     · rw [hx.hw]; exact Nat.le_trans hi.hwle hge1
     · rw [hx.chain]; exact hi.chain
+    · exact (runSer_sin L _ (fun st h => serRecord_good L _ d e args st h) s hi.len hin.1).storesIn hi.stin
     · rw [r3, hin.2.2]; exact hi.len
     · rw [r4]; exact hi.pkt
     · rw [r2]
@@ -672,7 +718,12 @@ theorem traceWrite_pinv (e : ERT) (he : e ∈ d.erts) (args : Args) (hargs : Arg
     -- the record just serialised occupies `[at before, at now)`: after everything logged for this packet so far
     have hrec : PInv d L oa (s2.ev (.recDone e.name s.c.at_ s2.c.at_)) :=
       ⟨h2i.nh, h2i.len, h2i.pkt, h2i.at_, h2i.sv, h2i.oa, h2i.sb, h2i.oc, h2i.cz, Nat.le_refl _,
-        ⟨by rw [h3.ext.hw, hx.hw]; exact hi.hwle, by rw [h3.at_]; exact hge1, h2i.at_, h2i.chain⟩⟩
+        ⟨by rw [h3.ext.hw, hx.hw]; exact hi.hwle, by rw [h3.at_]; exact hge1, h2i.at_, h2i.chain⟩,
+        fun x hx' => by
+          have hx'' : x ∈ Ev.recDone e.name s.c.at_ s2.c.at_ :: s2.log := hx'
+          rcases List.mem_cons.mp hx'' with rfl | h
+          · trivial
+          · exact h2i.stin x h⟩
     have h4 := commit_pinv cfg d L A oa hcfg hsmall _ hrec
     split
     · exact h4
@@ -776,7 +827,7 @@ theorem rtInit_pinv (d : DST) (L A : Nat) (hA : 0 < A) (hsmall : 8 * L + A ≤ 2
     PInv d L p.openArgs (rtInit L p) := by
   have hu : u32 (L * 8) = 8 * L := by simp only [u32]; omega
   refine ⟨rfl, by simp [rtInit], ?_, Nat.zero_le _, fun h => by simp [rtInit] at h, rfl, hsb,
-    fun h => by simp [rtInit] at h, Nat.zero_le _, Nat.le_refl _, trivial⟩
+    fun h => by simp [rtInit] at h, Nat.zero_le _, Nat.le_refl _, trivial, fun e he => by simp [rtInit] at he⟩
   show u32 (L * 8) = 8 * L
   exact hu
 
